@@ -54,7 +54,8 @@ BASE_ISA = {
 # macro operand patterns: name -> (operand set names, invocation operand alternatives per slot)
 # an invocation operand: (full text, argument text or None, register name or None)
 NUMS = [('5', '5', None), ('start', 'start', None), ('fwd', 'fwd', None), ('fwd+1', 'fwd+1', None),
-        ("'@'", "'@'", None)]          # the character literal '@': not a placeholder
+        ("'@'", "'@'", None),          # the character literal '@': not a placeholder
+        ('1+2', '1+2', None)]          # substitution is textual: `@ARG(n)*2` becomes 1+2*2
 REGOPS = [('a', None, 'a'), ('b', None, 'b')]
 INDS = [('[fwd]', 'fwd', None), ('[ start + 2 ]', 'start + 2', None)]
 ENUMS = [('foo', None, None), ('bar', None, None)]
@@ -71,8 +72,8 @@ PATTERNS = {
 # step templates usable with each pattern; 'BAD' marks templates whose placeholder cannot be filled
 TEMPLATES = {
     'ri': ['ldi @REG(0), @ARG(1)', 'ldi @OP(0), @OP(1)', 'n12 @ARG(1)', 'brr @ARG(1)', 'jmp @ARG(1)', 'push @REG(0)', 'push @OP(0)',
-           'nop', 'ldm [@ARG(1)]', 'ldi b, @ARG(1)+1', 'bre @ARG(1)'],
-    'i': ['n12 @ARG(0)', 'brr @OP(0)', 'jmp @ARG(0)', 'ldi a, @ARG(0)', 'ldm [@OP(0)]', 'nop', 'n12 @ARG(0)+@ARG(0)', 'bre @OP(0)'],
+           'nop', 'ldm [@ARG(1)]', 'ldi b, @ARG(1)+1', 'bre @ARG(1)', 'ldi b, @ARG(1)*2'],
+    'i': ['n12 @ARG(0)', 'brr @OP(0)', 'jmp @ARG(0)', 'ldi a, @ARG(0)', 'ldm [@OP(0)]', 'nop', 'n12 @ARG(0)+@ARG(0)', 'bre @OP(0)', 'n12 2*@ARG(0)'],
     'r': ['push @REG(0)', 'push @OP(0)', 'ldi @REG(0), 7', 'nop', 'n12 9'],
     'n': ['ldm @OP(0)', 'ldm [@ARG(0)]', 'jmp @ARG(0)', 'n12 3', 'brr @ARG(0)'],
     'e': ['sel @OP(0)', 'n12 1', 'nop'],
